@@ -6,6 +6,7 @@ import SnesVerif.Gen.Map
 import SnesVerif.Gen.Color
 import SnesVerif.Map.Spec
 import SnesVerif.Bus.Model
+import SnesVerif.Rom.BusIO
 
 def hexNat? (s : String) : Option Nat :=
   if s.isEmpty then none else
@@ -99,9 +100,92 @@ def run (ops : List String) : String :=
   ";".intercalate outs.reverse
 end BusDrv
 
+/-! ### ROM reader / writer histories -/
+namespace RomDrv
+open RomIO
+
+inductive Obj | nothing | alwaysErr | reader (r : Reader) | writer (w : Writer)
+
+structure St where
+  img : Image
+  size : Nat
+  obj : Obj
+  touched : List Nat      -- offsets written by accepted writes (newest first)
+
+def errStr : Err → String
+  | .none => "nil" | .eof => "EOF" | .unexpectedEOF => "UEOF"
+
+def op (st : St) (ws : List String) : St × String :=
+  match ws with
+  | ["O", k, a] =>
+    match hexNat? a with
+    | some a =>
+      if k == "r" then
+        match openReader a with
+        | none => ({ st with obj := .alwaysErr }, "err")
+        | some r => if r.end_ > st.size ∨ r.start > r.end_ then ({ st with obj := .nothing }, "panic")
+                    else ({ st with obj := .reader r }, s!"win {toHex r.start} {toHex r.end_}")
+      else
+        match openWriter a with
+        | none => ({ st with obj := .alwaysErr }, "err")
+        | some w => ({ st with obj := .writer w }, s!"win {toHex w.start} {toHex w.end_}")
+    | none => (st, "bad-op")
+  | ["R", n] =>
+    match hexNat? n with
+    | some n =>
+      match st.obj with
+      | .alwaysErr => (st, "0 UEOF ")
+      | .reader r =>
+        let t := r.read st.img n
+        ({ st with obj := .reader t.1 }, s!"{toHex t.2.1.length} {errStr t.2.2} " ++ String.join (t.2.1.map hex2))
+      | _ => (st, "noobj")
+    | none => (st, "bad-op")
+  | ["W", n, vs] =>
+    match hexNat? n, hexNat? vs with
+    | some n, some vs =>
+      let p := (List.range n).map (fun j => hash8 vs.toUInt64 j.toUInt32)
+      match st.obj with
+      | .alwaysErr => (st, "0 UEOF")
+      | .writer w =>
+        let t := w.write st.img p
+        -- Go slices Contents[lo:hi] before copying: out-of-range bounds panic
+        let lo := Gen.rom_busWriter_lo w.o w.start w.end_
+        let hi := Gen.rom_busWriter_hi w.o w.start w.end_
+        if t.2.2.2 == .none ∧ (hi > st.size ∨ lo > hi) then (st, "panic") else
+        let tch := if t.2.2.2 == .none then (List.range t.2.2.1).map (fun j => lo + j) else []
+        ({ st with obj := .writer t.1, img := t.2.1, touched := tch.reverse ++ st.touched },
+          s!"{toHex t.2.2.1} {errStr t.2.2.2}")
+      | _ => (st, "noobj")
+    | _, _ => (st, "bad-op")
+  | ["F"] =>
+    let offs := (st.touched.reverse.eraseDups)
+    (st, "mods " ++ ",".intercalate (offs.map (fun a => s!"{toHex a}={hex2 (st.img a)}")))
+  | _ => (st, "bad-op")
+
+def run (size seed : Nat) (ops : List String) : String :=
+  let st0 : St := ⟨fun a => hash8 seed.toUInt64 a.toUInt32, size, .nothing, []⟩
+  let (_, outs) := ops.foldl (fun (acc : St × List String) o =>
+    let ws := (o.splitOn " ").filter (· ≠ "")
+    if ws.isEmpty then acc else
+    let (s', r) := op acc.1 ws
+    (s', r :: acc.2)) (st0, [])
+  ";".intercalate outs.reverse
+end RomDrv
+
 def handle (line : String) : String :=
   let line := line.trimAscii.toString
   if line.startsWith "bus " then BusDrv.run ((line.drop 4).toString.splitOn ";") else
+  if line.startsWith "rom " then
+    match (line.drop 4).toString.splitOn ";" with
+    | hd :: ops =>
+      match (hd.splitOn " ").filter (· ≠ "") with
+      | [sz, sd] =>
+        match hexNat? sz, hexNat? sd with
+        | some sz, some sd => RomDrv.run sz sd ops
+        | _, _ => "bad-op"
+      | _ => "bad-op"
+    | [] => "bad-op"
+  else
   let ws := (line.splitOn " ").filter (· ≠ "")
   match ws with
   | ["map", f, a] =>
